@@ -16,7 +16,7 @@ import (
 )
 
 func init() {
-	pbt.Describe("cases = (log seed, kind record|tree, tree size t, index/old size n, one mutation of the otherwise valid check tuple). Sizes are biased to 2^k, 2^k+-1 and small values; the store handed to the prover is built by the independent layout enumerator. Mutations cover every component: one bit of any proof hash, drop/duplicate/swap/append/prepend/reverse proof elements, index +-1/random, either size +-1/random/0/negative/>2^62, leaf hash, either root, proofs of a different (t,n), kinds crossed. Oracle: prover output == RFC 6962 PATH/PROOF computed recursively over leaf data; checker verdict == RFC 9162 verification algorithm; out-of-range arguments give an error, not a panic. Non-trivial: t>=3 and (a mutation was applied or the proof has >=2 hashes). Distinct by JSON rendering. The enumeration sub covers every (t,n) with t<=limit.",
+	pbt.Describe("cases = (log seed, kind record|tree, tree size t, index/old size n, one mutation of the otherwise valid check tuple). Sizes are biased to 2^k, 2^k+-1 and small values; the store handed to the prover is built by the independent layout enumerator. Mutations cover every component: one bit of any proof hash, drop/duplicate/swap/append/prepend/reverse proof elements, index +-1/random, either size +-1/random/0/negative/>2^62, leaf hash, either root, proofs of a different (t,n), kinds crossed. Oracle: prover output == RFC 6962 PATH/PROOF computed recursively over leaf data; checker verdict == RFC 9162 verification algorithm; out-of-range arguments give an error, not a panic. Non-trivial: t>=3 and (a mutation was applied or the proof has >=2 hashes). Distinct by JSON rendering. The enumeration sub covers every (t,n) with t<=limit. A proof is compared with the reference again after two further prover calls on the same log (held result).",
 		"merkleref (RFC 6962 recursion + RFC 9162 verifiers) is correct; SHA-256 collision-free", "for first==second the consistency check is 'empty proof and equal roots' (RFC 6962 section 2.1.2; RFC 9162's algorithm assumes first<second)")
 }
 
@@ -142,6 +142,12 @@ func proveAndCompare(tree *merkleref.Tree, store []merkleref.Hash, isTree bool, 
 		if err := tlog.CheckTree(p, t, tlog.Hash(tree.MTH(0, t)), n, tlog.Hash(tree.MTH(0, n))); err != nil {
 			return nil, pbt.Failf("complete-tree", "CheckTree rejects the genuine proof for t=%d n=%d: %v", t, n, err)
 		}
+		// a proof stays what it is while other proofs are made from the same log
+		tlog.ProveTree(t, 1+(n+t/2)%t, rd)
+		tlog.ProveRecord(t, (n+t/2)%t, rd)
+		if !eqProof(p, want) {
+			return nil, pbt.Failf("proof-changed-later", "the proof ProveTree(%d,%d) returned was the RFC 6962 proof when returned and is not after two later prover calls", t, n)
+		}
 		return p, nil
 	}
 	p, err := tlog.ProveRecord(t, n, rd)
@@ -151,6 +157,11 @@ func proveAndCompare(tree *merkleref.Tree, store []merkleref.Hash, isTree bool, 
 	}
 	if err := tlog.CheckRecord(p, t, tlog.Hash(tree.MTH(0, t)), n, tlog.Hash(merkleref.LeafHash(tree.Leaves[n]))); err != nil {
 		return nil, pbt.Failf("complete-record", "CheckRecord rejects the genuine proof for t=%d n=%d: %v", t, n, err)
+	}
+	tlog.ProveRecord(t, (n+t/2)%t, rd)
+	tlog.ProveTree(t, 1+(n+t/2)%t, rd)
+	if !eqProof(p, want) {
+		return nil, pbt.Failf("proof-changed-later", "the proof ProveRecord(%d,%d) returned was the RFC 6962 path when returned and is not after two later prover calls", t, n)
 	}
 	// the leaf hash a caller of CheckRecord computes for the record's content is the RFC 6962 leaf hash
 	if got := tlog.RecordHash(tree.Leaves[n]); merkleref.Hash(got) != merkleref.LeafHash(tree.Leaves[n]) {
